@@ -56,7 +56,9 @@ Print Assumptions C36_documented_drain_meets_the_property.
    which breaks this example on purpose: the model must then be moved to stop_drain *)
 Example C36_code_shape :
   stop_closes_worker_channels && stop_waits_for_workers_before_closing_send_queue &&
-  collect_returns_on_closed_channel && negb (stop_visits_buffers_in_stop || stop_visits_buffers_in_collect) = true.
+  collect_returns_on_closed_channel && negb (stop_visits_buffers_in_stop || stop_visits_buffers_in_collect) &&
+  (* a worker may still be deciding when shutdown starts: its decision cache is stopped only after it has exited *)
+  list_eqb String.eqb stop_order_of_wait_and_cache_stop ["i.workersWG.Wait()"; "worker.Stop()"]%string = true.
 Proof. vm_compute. reflexivity. Qed.
 
 (* ---------------- transmission part of the shutdown sequence ---------------- *)
